@@ -26,12 +26,16 @@ inductive FOList where
   | cons (h : FO) (t : FOList)
 end
 
+def negZero : UInt64 := 0x8000000000000000
+/-- `0.0` and `-0.0` are one number (`0.0 = -0.0` succeeds): the reading identifies them -/
+def canonF (b : UInt64) : UInt64 := if b == negZero then 0 else b
+
 mutual
 def abs : Term → FO
   | .nil => .junk
   | .anon => .anon
   | .atom s => .atom s
-  | .flt b => .flt b
+  | .flt b => .flt (canonF b)
   | .int i => .int i
   | .var id _ => .var id
   | .cplx args => .app (absL args)
